@@ -40,7 +40,7 @@ ASSUMPTIONS = [
 BOUND = {
     "quick": "72,454 cases: all collections of 0..2 features over the four keys (p,r,f: absent/null/1 value; q: absent/''/1 value) x 3 geometries (243 features, 59,293 collections); "
              "all collections of 3 features over each single key (absent/null/2 values; q: absent/null/''/2 values) x 3 geometries (8,559); "
-             "13 base collections (0..3 features) x 30 member configurations (none; 5 names x 5 values; 'items'; 3 pairs) x position of 'features' {last, first} x indent {default,0,4} x suffix {'', .gz} (4,602)",
+             "13 base collections (0..3 features) x 30 member configurations (none; 5 names x 5 values; 'items'; 3 pairs) x position of 'features' {last, first} x indent {default,None,0,4} x suffix {'', .gz}; 13 base collections x 2 member configurations x 6 json.load keyword sets x 4 json.dumps keyword sets",
     "thorough": "1,394,829 cases: quick, plus all collections of 1..2 features over the four keys with the full per-key alphabets (absent/null/2 values; q also '' with a quote/backslash/non-ASCII string as second value; 960 features, 922,560 collections); "
                 "all collections of 3 features over every pair of keys (absent/null/1 value, q also '') x 3 geometries (199,017); "
                 "260 base collections (all 0..1-feature collections, 16 two/three-feature collections) x 40 member configurations (adds names with a newline / empty, values true, 3, '', [], {}, five members at once) "
@@ -158,6 +158,7 @@ def shards(tier):
     if tier == "thorough":
         out += [feat(KEYS, "full", 2, j, 96) for j in range(96)]
     out += [feat([k], "full", 3) for k in KEYS]
+    out.append({"part": "kwargs", "tier": tier})
     # size ladder: long collections (a chunked writer / reader must not care where a chunk ends)
     out += [{"part": "long", "length": n, "tier": tier} for n in ([17, 1001] if tier == "quick" else [17, 129, 1001, 2049])]
     if tier == "thorough":
@@ -174,9 +175,22 @@ def run_shard(shard, rec):
         for indent in ("default", 0):
             check_case({"features": coll, "extra": [], "pos": "last", "indent": indent, "suffix": ""}, rec)
         return
+    if shard["part"] == "kwargs":
+        # keyword arguments documented as handed to json.load / json.dumps that leave the decoded values and the
+        # meaning of the written file alone: the reading and the round trip must be what they are without them
+        extras = [[], [["name", "x"], ["crs", MVALUES[4]]]]
+        for coll in base_collections(tier):
+            for extra in extras:
+                for rk in READ_KWARGS:
+                    for wk in WRITE_KWARGS:
+                        if rk is None and wk is None:
+                            continue
+                        check_case({"features": coll, "extra": extra, "pos": "last", "indent": "default", "suffix": "",
+                                    "read_kwargs": rk, "write_kwargs": wk}, rec)
+        return
     if shard["part"] == "meta":
         configs = []
-        indents = ["default", 0, 4] if tier == "quick" else ["default", None, 0, 1, 4]
+        indents = ["default", None, 0, 4] if tier == "quick" else ["default", None, 0, 1, 4]
         for coll in base_collections(tier):
             for extra in member_configs(tier):
                 for pos in ("last", "first"):
@@ -212,6 +226,23 @@ def run_shard(shard, rec):
 # one execution
 
 _DIR = None
+
+READ_KWARGS = [None, "pairs_dict", "pairs_ordered", "hook_dict", "hook_same", "parse_plain"]
+WRITE_KWARGS = [None, "ascii", "compact", "default_repr"]
+
+
+def read_kwargs(name):
+    import collections
+    return {None: {},
+            "pairs_dict": {"object_pairs_hook": dict},
+            "pairs_ordered": {"object_pairs_hook": collections.OrderedDict},
+            "hook_dict": {"object_hook": dict},
+            "hook_same": {"object_hook": lambda x: x},
+            "parse_plain": {"parse_float": float, "parse_int": int}}[name]
+
+
+def write_kwargs(name):
+    return {None: {}, "ascii": {"ensure_ascii": True}, "compact": {"separators": (",", ":")}, "default_repr": {"default": repr}}[name]
 
 
 def scratch_dir():
@@ -280,11 +311,13 @@ def check_case(case, rec):
     out = os.path.join(scratch_dir(), "out.geojson" + case["suffix"])
     write_input(base, top)
     kwargs = {} if case["indent"] == "default" else {"indent": case["indent"]}
+    kwargs.update(write_kwargs(case.get("write_kwargs")))
+    rkw = read_kwargs(case.get("read_kwargs"))
 
     # ---- read ---------------------------------------------------------
     rec.trans()
     try:
-        d = GeoJSON.read(base)
+        d = GeoJSON.read(base, **rkw)
     except Exception as e:
         rec.violation("read", "raised", case, f"{type(e).__name__}: {e}")
         rec.outcome(("read-raised", type(e).__name__))
@@ -327,7 +360,7 @@ def check_case(case, rec):
     # ---- re-read -------------------------------------------------------
     rec.trans()
     try:
-        d2 = GeoJSON.read(out)
+        d2 = GeoJSON.read(out, **rkw)
     except Exception as e:
         rec.violation("reread", "raised", case, f"{type(e).__name__}: {e}")
         rec.outcome(("reread-raised", type(e).__name__))
